@@ -175,7 +175,20 @@ def form_iff(I, n, fr):
     return I.mk(a == b, "bool")
 
 
-SPEC_FORMS = {"old": form_old, "forall": form_forall, "exists": form_exists, "implies": form_implies, "iff": form_iff}
+def form_at_interference(I, n, fr):
+    """Evaluate in the heap as it was right after the interference at the last await (rely/guarantee, C09)."""
+    snap = getattr(I, "interference_snap", None)
+    if snap is None:
+        raise Unsupported("at_interference() without an interfering await on this path")
+    nf = Frame(None, fr.globals, fr)
+    nf.spec = True
+    nf.heap = snap
+    nf.old_heap = getattr(fr, "old_heap", None)
+    nf.new_heap = getattr(fr, "new_heap", None)
+    return I.ev(n.args[0], nf)
+
+
+SPEC_FORMS = {"at_interference": form_at_interference, "old": form_old, "forall": form_forall, "exists": form_exists, "implies": form_implies, "iff": form_iff}
 
 
 # ----------------------------------------------------------------------------
@@ -657,12 +670,13 @@ def havoc_object(I, o):
 
 
 class LoopContract:
-    def __init__(self, qualname, ordinal, invariant=(), modifies=(), lets=None):
+    def __init__(self, qualname, ordinal, invariant=(), modifies=(), lets=None, step=()):
         self.qualname = qualname
         self.ordinal = ordinal
         self.invariant = list(invariant)
         self.modifies = list(modifies)
         self.lets = dict(lets or {})
+        self.step = list(step)  # two-state clauses of one iteration (old = the iteration's start)
 
 
 def loop_ordinal(func, stmt):
@@ -694,7 +708,7 @@ def exec_symbolic_for(I, s, it, fr):
     c = I.c
     func = fr.func
     ordn = loop_ordinal(func, s)
-    lc = I.w.loops.get((func.qualname, ordn))
+    lc = getattr(I, "loop_override", {}).get((func.qualname, ordn)) or I.w.loops.get((func.qualname, ordn))
     if lc is None:
         raise Unsupported(f"loop {ordn} of {func.qualname} has no invariant")
     if isinstance(it, Obj):
@@ -747,12 +761,17 @@ def exec_symbolic_for(I, s, it, fr):
     item = {"dict_items": (kval, vval), "dict_values": vval, "dict_keys": kval}[mode]
     I.assign(s.target, item, fr)
     I.last_done = done
+    iter_start = c.heap.snapshot()
     try:
         I.block(s.body, fr)
     except ContinueSig:
         pass
     except BreakSig:
         raise Unsupported("break in a symbolic for loop")
+    e_step = dict(env)
+    e_step.update({k_: v_ for k_, v_ in fr.locals.items()})
+    for cl in lc.step:
+        check_goal(I, eval_bool(I, cl.text, e_step, c.heap, iter_start), f"{cl.id}/iteration", cl.tag, getattr(I, "unit_name", ""))
     for cl, g in inv_goals(z3.Store(done, k, z3.BoolVal(True)), c.heap):
         check_goal(I, g, f"{cl.id}/step", cl.tag, getattr(I, "unit_name", ""))
     raise PathEnd("loop-back")
